@@ -266,32 +266,34 @@ pub fn h_edits() {
 /// is_completed() is true exactly when the eleven are set, on API-built partial entries
 pub fn h_completed() {
     let mut s = Summary::new();
+    // which required variable (if any) is left out, and two optional ones that may be set
+    let omit = sym::choose("omit", REQUIRED.len() + 2);
     let mut all = true;
-    let mut v = 0;
-    while v < 23 {
-        if sym::any_bool("set") {
-            if sym::choose("really", 2) == 1 {
-                match KIND[v] {
-                    0 => super::c07::set_s(&mut s, v, "x"),
-                    1 => super::c07::push_a(&mut s, v, "x"),
-                    _ => super::c07::set_i(&mut s, v, 1),
-                }
-            } else {
-                for r in REQUIRED.iter() {
-                    if *r == v {
-                        all = false;
-                    }
-                }
-            }
+    let mut k = 0;
+    while k < REQUIRED.len() {
+        let v = REQUIRED[k];
+        if k == omit {
+            all = false;
         } else {
-            for r in REQUIRED.iter() {
-                if *r == v {
-                    all = false;
-                }
+            match KIND[v] {
+                0 => super::c07::set_s(&mut s, v, "x"),
+                1 => super::c07::push_a(&mut s, v, "x"),
+                _ => super::c07::set_i(&mut s, v, 1),
             }
         }
-        v += 1;
+        k += 1;
+    }
+    if omit == REQUIRED.len() + 1 {
+        // nothing omitted, but set via a different kind of call as well
+        super::c07::set_a(&mut s, 5, &["y".to_string()]);
+    }
+    let opt = [3usize, 4, 6, 7, 8, 9, 10, 14, 18, 19, 20, 22][sym::choose("opt", 12)];
+    match KIND[opt] {
+        0 => super::c07::set_s(&mut s, opt, "x"),
+        1 => super::c07::push_a(&mut s, opt, "x"),
+        _ => super::c07::set_i(&mut s, opt, 1),
     }
     sym::cover("complete", all);
+    sym::cover("incomplete", !all);
     sym::check("C08/is_completed", s.is_completed() == all);
 }
